@@ -32,7 +32,7 @@ def parents : List (Exc × Exc) :=
   [("UnicodeDecodeError", "ValueError"), ("JSONDecodeError", "ValueError"), ("FileNotFoundError", "OSError"),
    ("IOError", "OSError"), ("OSError", "IOError"), ("XMLSyntaxError", "ParseError"), ("ParseError", "SyntaxError"),
    ("ValidationError", "Exception"), ("ValueError", "Exception"), ("KeyError", "LookupError"), ("IndexError", "LookupError"),
-   ("LookupError", "Exception"), ("AssertionError", "Exception"), ("NotImplementedError", "RuntimeError"),
+   ("LookupError", "Exception"), ("AssertionError", "Exception"), ("NotImplementedError", "RuntimeError"), ("RecursionError", "RuntimeError"),
    ("RuntimeError", "Exception"), ("OSError", "Exception"), ("SyntaxError", "Exception"), ("TypeError", "Exception"),
    ("AttributeError", "Exception"), ("BadZipFile", "Exception"), ("AASConstraintViolation", "Exception")]
 
